@@ -36,6 +36,12 @@ package static
 //@   noframe
 //@   at call 0 of Open before assert[opened-file-is-the-root-joined-with-the-cleaned-request-path-or-its-configured-target] arg0 == joinRes && joinRoot == s.rootPath &&
 //@        (joinRel == filepath.Clean(res.Request.URL.Path) || (has(s.explicitPaths, filepath.Clean(res.Request.URL.Path)) && joinRel == s.explicitPaths[filepath.Clean(res.Request.URL.Path)]))
+// the bytes read for a range are exactly its positions start..end inclusive, read from offset start, and what is
+// written into a multipart part is that segment
+//@   at call 0 of ReadAt before assert[single-range-reads-exactly-the-requested-positions] len(arg0) == end - start + 1 && arg1 == start
+//@   at call 1 of ReadAt before assert[each-part-reads-exactly-the-requested-positions] len(arg0) == end - start + 1 && arg1 == start
+//@   at call 1 of Sprintf before assert[content-range-names-the-requested-positions-and-the-file-size] len(arg1) == 3 && arg1[0] == iface(start) && arg1[1] == iface(end) && arg1[2] == iface(info.Size())
+//@   at call 2 of Sprintf before assert[content-range-of-the-part-names-its-positions-and-the-file-size] len(arg1) == 3 && arg1[0] == iface(start) && arg1[1] == iface(end) && arg1[2] == iface(info.Size())
 //@   safe index slice make div assert
 //@   loop 0 invariant[pairs] forall k int :: 0 <= k && k < len(ranges) ==> len(ranges[k]) == 2
 //@   loop 0 invariant[allocated] forall k int :: 0 <= k && k < len(ranges) ==> allocated(ranges[k])
